@@ -22,19 +22,26 @@ def configs(tier, seed):
                 if L == 4 and B == 0 and env[0] not in ("flip", "md5"):
                     continue
                 cfgs.append({"fam": "g", "L": L, "B": B, "env": env})
-    n = 4 if tier == "quick" else 6
+    A_MASK = ["10.1.2.3", "10.1.2.4", "224.0.0.0", "224.0.0.5"]
+    A_MIX = ["10.1.2.3", "10.129.0.1", "200.1.2.2", "138.7.6.5"]
+    A_FLIP = ["240.0.0.255", "10.1.2.3", "138.7.6.5"]
+    more = [] if tier == "quick" else ["11.0.0.9", "192.168.1.77"]
+    n6 = 4 if tier == "quick" else 6
     for B in ([0, 8] if tier == "quick" else [0, 1, 8, 32]):
-        cfgs.append({"fam": "4", "B": B, "env": ["md5", "saltForTest"], "n": n})
-        cfgs.append({"fam": "4", "B": B, "env": ["md5", "seed%d" % seed], "n": n,
+        cfgs.append({"fam": "4", "B": B, "env": ["md5", "saltForTest"], "alpha": A_MASK + more})
+        cfgs.append({"fam": "4", "B": B, "env": ["md5", "seed%d" % seed], "alpha": A_MIX + more,
                      "prefixes": ["10.0.0.0/8", "12.0.0.0/6", "10.9.8.0/24"],
                      "networks": ["10.9.0.0/16", "200.1.2.3/32"]})
-        cfgs.append({"fam": "6", "B": B, "env": ["md5", "saltForTest"], "n": n})
-    cfgs.append({"fam": "4", "B": 8, "env": ["flip"], "n": n})
-    cfgs.append({"fam": "6", "B": 8, "env": ["alt"], "n": n})
+        cfgs.append({"fam": "6", "B": B, "env": ["md5", "saltForTest"], "n": n6})
+    cfgs.append({"fam": "4", "B": 8, "env": ["flip"], "alpha": A_MASK})
+    cfgs.append({"fam": "4", "B": 0, "env": ["flip"], "alpha": A_FLIP + more})
+    cfgs.append({"fam": "6", "B": 8, "env": ["alt"], "n": n6})
     return cfgs
 
 
-_V4_ALPHA = ["10.1.2.3", "10.1.2.4", "10.129.0.1", "11.0.0.9", "200.1.2.2", "138.7.6.5"]
+# incl. a mask-shaped value and an ordinary address of the same /24, and an address whose image
+# under the flip-all environment is mask-shaped (240.0.0.255 -> 255.255.255.0)
+_V4_ALPHA = ["10.1.2.3", "10.1.2.4", "224.0.0.0", "224.0.0.5", "240.0.0.255", "138.7.6.5", "10.129.0.1", "200.1.2.2"]
 _V6_ALPHA = ["2001:db8::1", "2001:db8::2", "2001:db8:8000::1", "2001:db9::7", "a001::5",
              "fe80::1:2:3:4"]
 
@@ -45,7 +52,7 @@ def alphabet(cfg):
         return list(range(1 << cfg["L"]))
     n = cfg.get("n", 4)
     if fam == "4":
-        return [int(ipaddress.IPv4Address(a)) for a in _V4_ALPHA[:n]]
+        return [int(ipaddress.IPv4Address(a)) for a in (cfg.get("alpha") or _V4_ALPHA[:n])]
     return [int(ipaddress.IPv6Address(a)) for a in _V6_ALPHA[:n]]
 
 
@@ -79,7 +86,7 @@ def ops_for(cfg, T):
     if cfg["fam"] == "g":
         return [["a", a] for a in A] + [["d", b] for b in A]
     ops = [["a", a] for a in A] + [["d", T.f(a)] for a in A if isinstance(T.f(a), int)]
-    extra = A[:1] if cfg.get("n", 4) <= 4 else A[:2]
+    extra = A[:1] if len(A) <= 4 else A[:2]
     ops += [["d", a] for a in extra]
     # an image used as an original (a config that already holds anonymized addresses)
     ops += [["a", T.f(a)] for a in extra if isinstance(T.f(a), int)]
